@@ -584,6 +584,8 @@ def _call_ext(it, name, args, kwargs, node):
         return u
     if n == "warnings.warn":
         return VConst(None)
+    if n == "types.MappingProxyType" and len(args) == 1 and isinstance(args[0], VDict):
+        return args[0]  # a read-only view of that dictionary: the same entries, whatever happens to them
     if n == "copy.deepcopy" or n == "copy.copy":
         return deep_copy(it, args[0], node, deep=n.endswith("deepcopy"))
     if n == "functools.wraps":
